@@ -597,7 +597,7 @@ static int asyncClient_calculateRequestId(KSI_AsyncClient *c, KSI_uint64_t *id, 
 
 	do {
 		/* Check if the cache is full. */
-		if ((c->options[KSI_ASYNC_OPT_REQUEST_CACHE_SIZE]) == (c->pending + c->received + 1)) {
+		if ((c->options[KSI_ASYNC_OPT_REQUEST_CACHE_SIZE]) <= (c->pending + c->received + 1)) {
 			res = KSI_ASYNC_REQUEST_CACHE_FULL;
 			goto cleanup;
 		}
